@@ -24,7 +24,10 @@ QUOTA = [0.05, 0.15, 0.25, 0.29, 0.35, 0.44, 0.5, 0.58, 0.62, 0.7, 0.75, 0.82, 0
 def _gen(rng, i=None):
     # a fixed schedule by case index (not a coin per case) so that every run contains every shape
     k = rng.random() if i is None else QUOTA[i % len(QUOTA)]
-    if k < 0.3:
+    if i is not None and i % 8 == 6:
+        # the compiled program has its own implementation of stack 0 / input lines
+        name, prog = 'tmpl:stack0_data', gen.tmpl_stack0_data(rng, nan_share=0.5)
+    elif k < 0.3:
         name, prog = 'tmpl:handover', gen.tmpl_handover(rng)
     elif k < 0.4:
         name, prog = 'tmpl:dispatch', gen.tmpl_dispatch(rng, allow_input=rng.random() < 0.7)
@@ -62,6 +65,8 @@ def _case(i):
     res = {'i': i, 'items': [], 'feat': [], 'status': 'ok', 'hist': {}}
     name, prog = _gen(rng, i)
     stdin = gen.gen_stdin(rng)
+    if name == 'tmpl:stack0_data' and rng.random() < 0.8:
+        stdin = rng.choice(gen.MULTILINE)
     res['src'] = name
     text = P.render_text(rng, prog)
     if text is None:
@@ -229,5 +234,6 @@ def main(tier, seed):
                'jump_into_prefix_after_read': (featc.get('jump_into_prefix_after_read', 0), 5),
                'heart_return_to_self': (featc.get('heart_return_to_self', 0), 3),
                'nan_at_handover': (featc.get('nan_at_handover', 0), 2),
+               'nan_onto_stack0_after_read': (featc.get('nan_onto_stack0_after_read', 0), 4),
                'big_value_at_handover': (featc.get('big_value_at_handover', 0), 3)}
     return rep.finish(cov, assumptions, t0, minimum)
